@@ -31,6 +31,18 @@ type ClassModel struct {
 
 	// module - the module whose code defines this type (nil for native types)
 	module *r.Module
+	// declBlock - identity of the block whose 定义 statement created this type
+	declBlock int
+}
+
+// SetDeclBlock - remember the block that defines the type
+func (cm *ClassModel) SetDeclBlock(blockID int) *ClassModel {
+	cm.declBlock = blockID
+	return cm
+}
+
+func (cm *ClassModel) GetDeclBlock() int {
+	return cm.declBlock
 }
 
 // SetModule - bind the type to the module that defines it: the methods of its objects run
